@@ -283,6 +283,17 @@ impl<T: Debug + Eq + PartialEq + Clone + Default> TaggedLine<T> {
         }
     }
 
+    /// Remove and return the zero-width markers (non-string elements) at
+    /// the end of the line.
+    fn take_trailing_markers(&mut self) -> Vec<TaggedLineElement<T>> {
+        let keep = self
+            .v
+            .iter()
+            .rposition(|tle| matches!(tle, TaggedLineElement::Str(_)))
+            .map_or(0, |pos| pos + 1);
+        self.v.split_off(keep)
+    }
+
     /// Remove the contained items
     fn remove_items(&mut self) -> impl Iterator<Item = TaggedLineElement<T>> {
         self.len = 0;
@@ -485,8 +496,16 @@ impl<T: Clone + Eq + Debug + Default> WrappedBlock<T> {
                                 tag: piece.tag.clone(),
                             }));
                             bpos = idx;
+                            self.force_flush_line();
+                        } else {
+                            // Markers directly before this piece move to
+                            // the new line with it.
+                            let markers = self.line.take_trailing_markers();
+                            self.force_flush_line();
+                            for marker in markers {
+                                self.line.push(marker);
+                            }
                         }
-                        self.force_flush_line();
                         lineleft = self.width;
                         if c_w <= lineleft {
                             lineleft -= c_w;
